@@ -189,12 +189,15 @@ func (f *FailoverOf[V]) Get(
 	}
 
 	// Pushing expired value with short ttl to serve during update.
+	hasStale := false
+
 	if v, freshEnough := f.freshEnough(err); freshEnough {
 		if err = f.refreshStale(ctx, key, v); err != nil {
 			return val, err
 		}
 
 		val = v
+		hasStale = true
 	}
 
 	// Check if update failed recently.
@@ -219,8 +222,16 @@ func (f *FailoverOf[V]) Get(
 					"key", key)
 			}
 
-			if !f.config.FailHard && !errors.Is(err, ErrNotFound) {
-				return val, nil
+			if !f.config.FailHard {
+				if hasStale {
+					return val, nil
+				}
+
+				// Stale value is served regardless of MaxStaleness if update fails.
+				var errExpired ErrWithExpiredItemOf[V]
+				if errors.As(err, &errExpired) {
+					return errExpired.Value(), nil
+				}
 			}
 		}
 
